@@ -1,5 +1,6 @@
 import PkgProofs.Lemmas.SpecSet
 import PkgProofs.Lemmas.SpecAlike
+import PkgProofs.Lemmas.SpecReadable
 /-!
 # C05 — SpecifierSet is the conjunction of its specifiers; `&` is intersection; `str` round trip
 
@@ -29,27 +30,6 @@ theorem member_contains_true {m : Member} {v : Ver} (h : CmpOk m v) :
   rw [contains_some true h]; simp [accb]
 
 /-! ## constructors -/
-
-theorem ofSpecs_ok {ms : List Member} {p : Option Bool} {T : SpecSet} (h : ofSpecs ms p = .ok T) :
-    T = ⟨fromList ms, p⟩ ∧ ∀ m ∈ ms, m.1.canonical.isOk = true := by
-  unfold ofSpecs at h
-  split at h
-  · rename_i hall
-    refine ⟨by injection h with h; exact h.symm, ?_⟩
-    simpa using hall
-  · cases h
-
-theorem ofString_ok {s : Str} {p : Option Bool} {T : SpecSet} (h : SSet.ofString s p = .ok T) :
-    ∃ sps, parseAll (clauses s) = some sps ∧ T = ⟨fromList (sps.map fun sp => (sp, none)), p⟩ ∧
-      ∀ sp ∈ sps, sp.canonical.isOk = true := by
-  unfold SSet.ofString at h
-  split at h
-  · cases h
-  · rename_i sps hs
-    obtain ⟨hT, hc⟩ := ofSpecs_ok h
-    refine ⟨sps, hs, hT, ?_⟩
-    intro sp hsp
-    exact hc (sp, none) (List.mem_map.mpr ⟨sp, hsp, rfl⟩)
 
 /-- building a set from `Specifier` objects never raises (hashing is total) -/
 theorem ofSpecs_total (ms : List Member) (p : Option Bool) : ofSpecs ms p = .ok ⟨fromList ms, p⟩ := by
@@ -538,6 +518,85 @@ theorem str_parses_back (T : SpecSet) (hwf : WF T) (it : List Member) (hp : it.P
     have h2 : (ms.map fun m : Member => m.1.str) = srt.map fun m => m.1.str := by simp [hms, List.map_map]
     rw [h2] at h1
     exact h1.trans ((hsp.map _))
+
+/-! ## 5. equal sets match alike; everything from strings, no hypothesis left
+
+`CmpOk` is discharged by C03 (`SSet.cmpOk_of_readable`): a member that `Specifier.__init__` can produce,
+compared with a candidate that `Version()` can produce, never raises. -/
+
+theorem fromList_of_nodup (l : List Member) (h : (keys l).Nodup) : fromList l = l := by
+  have hfl : ∀ (l acc : List Member), (keys (acc ++ l)).Nodup → l.foldl SSet.insert acc = acc ++ l := by
+    intro l
+    induction l with
+    | nil => intro acc _; simp
+    | cons x xs ih =>
+      intro acc hn
+      have hx : key x.1 ∉ keys acc := by
+        simp only [keys_append, keys_cons] at hn
+        have := (List.nodup_append.mp hn).2.2
+        intro hmem'; exact this _ hmem' _ (by simp) rfl
+      rw [List.foldl_cons, insert_of_not_mem hx, ih (acc ++ [x]) (by simpa using hn)]
+      simp
+  simpa [fromList] using hfl l [] (by simpa using h)
+
+/-- **sets that are `==` match the same candidates** (pre-releases enabled), whatever their overrides,
+iteration orders and the spelling of their members -/
+theorem eq_sets_match_alike (T₁ T₂ : SpecSet) (h₁ : WF T₁) (h₂ : WF T₂) (heq : T₁.eq T₂ = true)
+    (it₁ it₂ : List Member) (hp₁ : it₁.Perm T₁.specs) (hp₂ : it₂.Perm T₂.specs)
+    (v : Ver) (hc : ∀ m ∈ T₁.specs, CmpOk m v) :
+    T₁.contains it₁ v (some true) false = T₂.contains it₂ v (some true) false := by
+  have hk := (eq_iff h₁ h₂).mp heq
+  have := clause_order_dup_invariant T₁.specs T₂.specs T₁.pre T₂.pre hk it₁ it₂
+    (by rw [fromList_of_nodup _ h₁]; exact hp₁) (by rw [fromList_of_nodup _ h₂]; exact hp₂) v hc
+  rw [fromList_of_nodup _ h₁, fromList_of_nodup _ h₂] at this
+  exact this
+
+/-- conjunction, from strings: for every set parsed from a string and every candidate `Version()` accepts -/
+theorem contains_is_all_of_strings (s : Str) (pre : Option Bool) (T : SpecSet) (hT : SSet.ofString s pre = .ok T)
+    (cs : Str) (c : Ver) (hc : scan cs = some c) (it : List Member) (hp : it.Perm T.specs) (p : Option Bool)
+    (hen : p = some true ∨ (p = none ∧ T.pre = some true)) :
+    ∃ b, T.contains it c p false = .ok b ∧
+      (b = true ↔ ∀ m ∈ T.specs, m.1.contains m.2 c (some true) = .ok true) :=
+  contains_is_all T it c p hen hp
+    (fun m hm => cmpOk_of_readable (ofString_readable hT m hm) (C02.scan_wf cs c hc))
+
+/-- order / spacing / duplication, from strings: two strings whose clauses are the same up to `Specifier`
+equality give sets that are `==` and match the same candidates -/
+theorem clause_order_dup_invariant_of_strings (s₁ s₂ : Str) (p₁ p₂ : Option Bool) (T₁ T₂ : SpecSet)
+    (h₁ : SSet.ofString s₁ p₁ = .ok T₁) (h₂ : SSet.ofString s₂ p₂ = .ok T₂)
+    (sps₁ sps₂ : List Spec) (hs₁ : parseAll (clauses s₁) = some sps₁) (hs₂ : parseAll (clauses s₂) = some sps₂)
+    (hk : ∀ k, k ∈ sps₁.map key ↔ k ∈ sps₂.map key)
+    (it₁ it₂ : List Member) (hp₁ : it₁.Perm T₁.specs) (hp₂ : it₂.Perm T₂.specs)
+    (cs : Str) (c : Ver) (hc : scan cs = some c) :
+    T₁.eq T₂ = true ∧ T₁.contains it₁ c (some true) false = T₂.contains it₂ c (some true) false := by
+  have hw₁ := ofString_wf h₁
+  have hw₂ := ofString_wf h₂
+  have heq : T₁.eq T₂ = true := by
+    rw [eq_iff hw₁ hw₂]
+    obtain ⟨x₁, hx₁, hT₁, _⟩ := ofString_ok h₁
+    obtain ⟨x₂, hx₂, hT₂, _⟩ := ofString_ok h₂
+    rw [hs₁] at hx₁; rw [hs₂] at hx₂
+    injection hx₁ with hx₁; injection hx₂ with hx₂
+    subst hx₁ hx₂ hT₁ hT₂
+    intro k
+    rw [mem_keys_fromList, mem_keys_fromList]
+    have e : ∀ l : List Spec, keys (l.map fun sp => ((sp, none) : Member)) = l.map key := by
+      intro l; simp [keys, List.map_map, Function.comp_def]
+    rw [e, e]
+    exact hk k
+  exact ⟨heq, eq_sets_match_alike T₁ T₂ hw₁ hw₂ heq it₁ it₂ hp₁ hp₂ c
+    (fun m hm => cmpOk_of_readable (ofString_readable h₁ m hm) (C02.scan_wf cs c hc))⟩
+
+/-- intersection, from strings -/
+theorem and_is_inter_of_strings (sa sb : Str) (pa pb : Option Bool) (A B R : SpecSet)
+    (hA : SSet.ofString sa pa = .ok A) (hB : SSet.ofString sb pb = .ok B) (h : A.and B = .ok R)
+    (ita itb itr : List Member) (ha : ita.Perm A.specs) (hb : itb.Perm B.specs) (hr : itr.Perm R.specs)
+    (cs : Str) (c : Ver) (hc : scan cs = some c) :
+    ∃ x y, A.contains ita c (some true) false = .ok x ∧ B.contains itb c (some true) false = .ok y ∧
+      R.contains itr c (some true) false = .ok (x && y) :=
+  and_is_inter A B R h ita itb itr ha hb hr c
+    (fun m hm => cmpOk_of_readable (ofString_readable hA m hm) (C02.scan_wf cs c hc))
+    (fun m hm => cmpOk_of_readable (ofString_readable hB m hm) (C02.scan_wf cs c hc))
 
 /-! ## non-vacuity and the recorded corner -/
 
